@@ -12,7 +12,7 @@ from mc.core.device import RecordingFile, crash_images
 from mc.core.evidence import Check, Shard, digest
 from mc.core.pool import Pool, chunks
 from mc.gen import archives, chains
-from mc.lib7z import Collect, install_key_cache
+from mc.lib7z import Collect, fixed_random, install_key_cache
 from mc.ref import ref7z
 
 MODULE = "mc.checks.c14"
@@ -64,7 +64,7 @@ def record_session(base: bytes | None, n, mk, chain, header, password, root, tar
             tgt = dev
             dev.seek(0)
         try:
-            with py7zr.SevenZipFile(tgt, "w" if base is None else "a", filters=filters, password=password) as z:
+            with fixed_random(f"c14:{n}:{mk}:{chain}:{header}"), py7zr.SevenZipFile(tgt, "w" if base is None else "a", filters=filters, password=password) as z:
                 if header == "raw":
                     z.set_encoded_header_mode(False)
                 elif header == "encrypted":
